@@ -48,7 +48,7 @@ def main():
         }],
         "checks": checks,
         "not_applicable": na,
-        "notes": "Every check: ./check.sh <ID> <tier> rebuilds /verif/sim against /repo's working tree and runs `amsim check`. Exit 0 held, 1 violation (VIOLATION line with replay file), 2 harness error. Known findings: /verif/known_findings.json.",
+        "notes": "Every check: ./check.sh <ID> <tier> rebuilds /verif/sim against /repo's working tree and runs `amsim check`. Exit 0 held, 1 violation (VIOLATION line with replay file), 2 harness error. Known findings: /verif/known_findings.json. In every check a library panic during an honest run (no crafted input so far) is a violation of the property being run (oracle no_panic_in_run) unless C37 records it, and a run exceeding 120 s is a violation (oracle terminates); thorough = the quick tier's generator over six times its run indexes. Seeded changes and which check catches which: DESIGN.md 14.",
     }
     json.dump(manifest, open("/verif/MANIFEST.json", "w"), indent=1)
     try:
